@@ -191,6 +191,42 @@ theorem C02_from_eof_lost_metadatas {mx Ta Ti Tn : Nat} (s : Send.State) (r : Re
     hdl hpr hdel hrt hmax hroom hj hp he1 he2 he3
   exact C02_lost_metadatas_round s _ ts t j t0 ts1 t' fs0 hs hsn a1 a2 hmax a4 a5 hf hne hfsw
 
+/-! ### the premises are satisfiable -/
+
+/-- the receiver after both segments; the Metadata PDU was lost and the EOF is still to come -/
+def exRM0 : Recv.State :=
+  (recvRun (Recv.new cfgL [([], .dir)] 0) [(0, .pdu exOut[1]!), (0, .pdu exOut[2]!)]).1
+
+example : ∃ q ∈ (mdRounds (eofFlush exRM0 5 6 exOut[3]!).1 [1000000006, 2000000100]).2,
+    ∃ pdu ∈ (sendN (sendStep exS4 2000000200 (.pdu q)).naks.length (sendStep exS4 2000000200 (.pdu q)) 2000000200).2,
+      FG (recvStep (mdRounds (eofFlush exRM0 5 6 exOut[3]!).1 [1000000006, 2000000100]).1 2000000300 (.pdu pdu)) := by
+  have hsegs : exRM0.segs = [(0, 6)] := by decide
+  have htmp : exRM0.tempFile = some [1, 2, 3, 4, 5, 6] := by decide
+  have hri : RI cfgL.max (cfgL.ta * 1000000000) (cfgL.ti * 1000000000) (cfgL.tn * 1000000000) exRM0 :=
+    ri_run _ _ (ri_new cfgL [([], .dir)] 0 (by decide) (by decide) (by decide) ⟨by decide, by decide, by decide⟩)
+  have hfile : exS4.file = Send.exFile := rfl
+  have hdata : DataOk exS4.file exRM0 := by
+    rw [hfile]
+    refine ⟨?_, ?_, ?_, ?_⟩
+    · rw [hsegs]; exact ⟨fun sg hsg => by simp at hsg; subst hsg; decide, by simp⟩
+    · rw [hsegs]; intro sg hsg; simp at hsg; subst hsg; decide
+    · rw [htmp]; decide
+    · rw [hsegs, htmp]
+      intro x hx
+      obtain ⟨sg, hsg, h1, h2⟩ := hx
+      simp at hsg; subst hsg
+      have : x = 0 ∨ x = 1 ∨ x = 2 ∨ x = 3 ∨ x = 4 ∨ x = 5 := by simp only at h1 h2; omega
+      rcases this with rfl | rfl | rfl | rfl | rfl | rfl <;> rfl
+  have he : ∃ e, (exOut[3]!).payload = .eof e ∧ e.cond = .NoError ∧ e.fileSize = 6 ∧ e.checksum = 0 := ⟨_, rfl, rfl, rfl, rfl⟩
+  obtain ⟨e, hp, he1, he2, he3⟩ := he
+  exact C02_from_eof_lost_metadatas (mx := 4) (Ta := 1000000000) (Ti := 3000000000) (Tn := 1000000000) exS4 exRM0 5 6 0
+    2000000200 2000000300 exOut[3]! e [1000000006, 2000000100] exRM0.fs
+    ⟨good_run _ (Send.good_new cfgS4 Send.exMd Send.exFile 0 rfl (by decide)) _, by decide, by decide, by decide, by decide, rfl⟩
+    (by decide) (by decide) (by decide) (by decide) (by decide) hdata (by decide) rfl (by decide) (by decide) (by decide)
+    hri.inv.rt (by decide) (Or.inl (by decide)) (by decide) hp he1 he2 (by rw [he3]; rfl)
+    ⟨by decide, by decide, by decide, by decide, by decide, by decide, by decide, by decide, by decide, by decide, trivial⟩
+    (by decide) (by decide)
+
 end Cfdp.Loop
 
 #print axioms Cfdp.Loop.eof_enters_md_wait
